@@ -379,6 +379,14 @@ Definition rule_no_fragment_cycles : list N :=
                         else detect (Datatypes.S (List.length (w_frags W))) f [] [] st)
                      (w_frags W) {| cy_visited := []; cy_errs := [] |}).
 
+(* C19: the fragments the cycle search descends into (every call of detectCycleRecursive marks
+   its fragment visited and nothing else does) *)
+Definition cycle_search_calls : nat :=
+  List.length (cy_visited (fold_left (fun st f =>
+                        if nmem (wf_name f) (cy_visited st) then st
+                        else detect (Datatypes.S (List.length (w_frags W))) f [] [] st)
+                     (w_frags W) {| cy_visited := []; cy_errs := [] |})).
+
 (* 21 UniqueVariableNames *)
 Definition rule_unique_variable_names : list N :=
   flat_map (fun o => dup_firsts [] (map (fun v => (wv_name v, wv_nid v)) (wo_vars o))) (w_ops W).
